@@ -1,5 +1,6 @@
 //! C07: record explanations of the real library (explanations build) for TraceProofs.tla.
 //! usage: ex_record <universe.json> <table.json> <out.ndjson> <maxpairs>
+//!        ex_record <universe.json> <table.json> - <maxpairs> flat-child <state index> <variant> <first pair>   (internal)
 //! For every TLC state of the universe: assert its equations with union_justified on terms
 //! inserted with add_syn_expr, then ask explain_equivalence for pairs of equal pool terms and
 //! serialise every proof DAG (rule, both sides as TERMS via get_syn_expr, premises, justification).
@@ -60,124 +61,327 @@ mod imp {
         id
     }
 
+
+    // ---- flat explanations (to_flat_string): one term per line, every line after the first marks the rewritten
+    // subterm as `(Rewrite=> <justification> <new subterm>)` / `(Rewrite<= ..)`.  The lines are read with a
+    // layout-agnostic S-expression reader (position = index among the non-slot arguments on the way down), the marker
+    // is removed and the remaining text is parsed by the library's own RecExpr parser.
+    #[derive(Debug, Clone)]
+    enum Sx { Atom(String), List(Vec<Sx>) }
+    fn sx_parse(toks: &[String], i: &mut usize) -> Option<Sx> {
+        let t = toks.get(*i)?.clone();
+        *i += 1;
+        if t == "(" {
+            let mut v = Vec::new();
+            loop {
+                if toks.get(*i)? == ")" { *i += 1; return Some(Sx::List(v)); }
+                v.push(sx_parse(toks, i)?);
+            }
+        } else if t == ")" { None } else { Some(Sx::Atom(t)) }
+    }
+    fn sx_tokens(s: &str) -> Vec<String> {
+        let mut out = Vec::new();
+        let mut cur = String::new();
+        for c in s.chars() {
+            if c == '(' || c == ')' || c.is_whitespace() {
+                if !cur.is_empty() { out.push(std::mem::take(&mut cur)); }
+                if c == '(' || c == ')' { out.push(c.to_string()); }
+            } else { cur.push(c); }
+        }
+        if !cur.is_empty() { out.push(cur); }
+        out
+    }
+    fn sx_show(s: &Sx) -> String {
+        match s { Sx::Atom(a) => a.clone(), Sx::List(v) => format!("({})", v.iter().map(sx_show).collect::<Vec<_>>().join(" ")) }
+    }
+    /// removes the rewrite marker(s); collects (position, 1-based among the children, back, justification)
+    fn sx_strip(s: &Sx, pos: &mut Vec<usize>, found: &mut Vec<(Vec<usize>, bool, String)>) -> Sx {
+        match s {
+            Sx::Atom(_) => s.clone(),
+            Sx::List(v) => {
+                if let Some(Sx::Atom(h)) = v.first() {
+                    if (h == "Rewrite=>" || h == "Rewrite<=") && v.len() == 3 {
+                        found.push((pos.clone(), h == "Rewrite<=", sx_show(&v[1])));
+                        return v[2].clone();
+                    }
+                }
+                let mut out = Vec::new();
+                let mut ci = 0usize;
+                for (i, e) in v.iter().enumerate() {
+                    let is_slot = matches!(e, Sx::Atom(a) if a.starts_with('$'));
+                    if i == 0 || is_slot { out.push(e.clone()); continue; }
+                    ci += 1;
+                    pos.push(ci);
+                    out.push(sx_strip(e, pos, found));
+                    pos.pop();
+                }
+                Sx::List(out)
+            }
+        }
+    }
+    fn flat_record(text: &str, bn: &mut BackNamer) -> Result<Value, String> {
+        let mut lines = text.lines();
+        let first = lines.next().ok_or("empty flat explanation")?;
+        let start = RecExpr::<T>::parse(first).map_err(|e| format!("first line does not parse: {first}: {e:?}"))?;
+        let mut steps = Vec::new();
+        for ln in lines {
+            let toks = sx_tokens(ln);
+            let mut i = 0;
+            let sx = sx_parse(&toks, &mut i).ok_or_else(|| format!("line is not an S-expression: {ln}"))?;
+            if i != toks.len() { return Err(format!("trailing text in line: {ln}")); }
+            let mut found = Vec::new();
+            let stripped = sx_strip(&sx, &mut Vec::new(), &mut found);
+            if found.len() != 1 { return Err(format!("line has {} rewrite markers: {ln}", found.len())); }
+            let (pos, back, just) = found.pop().unwrap();
+            let txt = sx_show(&stripped);
+            let re = RecExpr::<T>::parse(&txt).map_err(|e| format!("line without its marker does not parse: {txt}: {e:?}"))?;
+            steps.push(json!({"pos": pos, "back": back, "just": just, "dst": bn.term(&re)}));
+        }
+        Ok(json!({"start": bn.term(&start), "steps": steps}))
+    }
+
+    struct Built { eg: EGraph<T>, asserted: Vec<Value>, nm: Naming, kind: &'static str, key: Vec<usize> }
+    enum BuildErr { Explain(PanicInfo), Other }
+
+    /// one history: the state's equations as justified unions on add_syn_expr terms (variant 1: reversed, other
+    /// orientations, plus logged rule applications)
+    fn build(uni: &Universe, st: &SpecObs, si: usize, variant: usize, seed: usize) -> Result<Built, BuildErr> {
+        let kind = NAMINGS[(si + variant + seed) % NAMINGS.len()];
+        let nm = Naming::new(kind, uni.n);
+        let mut key = st.key.clone();
+        if variant == 1 { key.reverse(); }
+        let built = guard(|| {
+            let ex = |ti: usize| to_recexpr::<T>(&uni.terms[ti - 1], &nm).unwrap();
+            let mut eg: EGraph<T> = EGraph::default();
+            let mut asserted = Vec::new();
+            // the universe's base terms (parents, other spellings of congruent nodes) are there from the start
+            let mut base = uni.base.clone();
+            if variant == 1 { base.reverse(); }
+            for t in base { eg.add_syn_expr(ex(t)); }
+            for (k, e) in key.iter().enumerate() {
+                let (mut a, mut b) = uni.eqs[*e - 1];
+                if (variant + k) % 2 == 1 { std::mem::swap(&mut a, &mut b); }
+                let ia = eg.add_syn_expr(ex(a));
+                let ib = eg.add_syn_expr(ex(b));
+                eg.union_justified(&ia, &ib, Some(format!("eq{e}")));
+                asserted.push(json!({"a": uni.terms[a - 1], "b": uni.terms[b - 1], "j": format!("eq{e}")}));
+            }
+            (eg, asserted)
+        });
+        let (mut eg, mut asserted) = match built {
+            Ok(x) => x,
+            Err(p) => return Err(if p.site.contains("src/explain/") { BuildErr::Explain(p) } else { BuildErr::Other }),
+        };
+        // rule applications: rewrite rules whose applier logs every instantiated pair and
+        // asserts it with the rule's name as justification (= union_instantiations)
+        if variant == 1 {
+            let rules: Vec<(&str, String, String)> = vec![
+                ("hcomm", "(h ?a ?b)".into(), "(h ?b ?a)".into()),
+                ("gg", "(g (g ?a))".into(), "?a".into()),
+                ("hidem", "(h ?a ?a)".into(), "?a".into()),
+                ("lamh", format!("(lam {} (h ?a (v {})))", nm.slot(1), nm.slot(1)), format!("(lam {} (h (v {}) ?a))", nm.slot(1), nm.slot(1))),
+                ("fswap", format!("(f {} {})", nm.slot(1), nm.slot(2)), format!("(f {} {})", nm.slot(2), nm.slot(1))),
+            ];
+            let pick = (si + seed) % rules.len();
+            let r2 = guard(|| {
+                let mut logged = Vec::new();
+                for round in 0..2 {
+                    let (name, l, r) = &rules[(pick + round) % rules.len()];
+                    let (lp, rp) = (Pattern::<T>::parse(l).unwrap(), Pattern::<T>::parse(r).unwrap());
+                    for sb in ematch_all(&eg, &lp) {
+                        let la = pattern_subst(&mut eg, &lp, &sb);
+                        let lb = pattern_subst(&mut eg, &rp, &sb);
+                        let mut bn = BackNamer::new(&nm, 100);
+                        let (ta, tb) = (bn.term(&eg.get_syn_expr(&la)), bn.term(&eg.get_syn_expr(&lb)));
+                        eg.union_justified(&la, &lb, Some(name.to_string()));
+                        logged.push(json!({"a": ta, "b": tb, "j": name}));
+                        if logged.len() > 40 { break; }
+                    }
+                }
+                logged
+            });
+            match r2 {
+                Ok(l) => asserted.extend(l),
+                Err(_) => return Err(BuildErr::Other),
+            }
+        }
+        Ok(Built { eg, asserted, nm, kind, key })
+    }
+
+    /// the pairs of pool terms the implementation considers equal, thinned out to about `maxpairs`
+    fn select_pairs(uni: &Universe, b: &Built, si: usize, seed: usize, maxpairs: usize) -> Vec<(usize, usize)> {
+        let ex = |ti: usize| to_recexpr::<T>(&uni.terms[ti - 1], &b.nm).unwrap();
+        let eg = &b.eg;
+        let mut pairs = Vec::new();
+        let found: Vec<Option<AppliedId>> = uni.terms.iter().enumerate().map(|(i, _)| lookup_rec_expr(&ex(i + 1), eg)).collect();
+        for i in 0..uni.terms.len() {
+            for j in 0..uni.terms.len() {
+                if i == j { continue; }
+                if let (Some(x), Some(y)) = (&found[i], &found[j]) {
+                    if guard(|| eg.eq(x, y)).unwrap_or(false) { pairs.push((i, j)); }
+                }
+            }
+        }
+        let step = (pairs.len() / maxpairs.max(1)).max(1);
+        pairs.into_iter().enumerate().filter(|(pi, _)| (pi + si + seed) % step == 0).map(|(_, p)| p).collect()
+    }
+
+    /// internal mode: the flat explanations of ONE history, one JSON line per pair on stdout, each announced by a line
+    /// `B <pair index>` - to_flat_string can run forever (the parent kills this process and starts the next pair)
+    fn flat_child(uni: &Universe, table: &Table, maxpairs: usize, seed: usize, args: &[String]) {
+        let si: usize = args[6].parse().unwrap();
+        let variant: usize = args[7].parse().unwrap();
+        let first: usize = args[8].parse().unwrap();
+        let st = &table.states[si];
+        let Ok(mut b) = build(uni, st, si, variant, seed) else { return; };
+        let pairs = select_pairs(uni, &b, si, seed, maxpairs);
+        let so = std::io::stdout();
+        for (pi, (i, j)) in pairs.iter().enumerate() {
+            if pi < first { continue; }
+            let (ti, tj) = { let ex = |ti: usize| to_recexpr::<T>(&uni.terms[ti - 1], &b.nm).unwrap(); (ex(i + 1), ex(j + 1)) };
+            let Ok(peq) = guard(|| b.eg.explain_equivalence(ti.clone(), tj.clone())) else { continue; };
+            { let mut o = so.lock(); writeln!(o, "B {pi}").unwrap(); o.flush().unwrap(); }
+            let mut evv = json!({"ev":"flat","universe":uni.name,"key":b.key,"naming":b.kind,"variant":variant,"asserted":b.asserted,
+                                 "query":{"l":uni.terms[*i],"r":uni.terms[*j]},
+                                 "panic":false,"root":0,"dag":[],"msg":"","site":""});
+            let none = json!({"start": uni.terms[*i], "steps": []});
+            match guard(|| peq.to_flat_string(&b.eg)) {
+                Ok(text) => {
+                    let mut bn = BackNamer::new(&b.nm, 100);
+                    match guard(|| flat_record(&text, &mut bn)) {
+                        Ok(Ok(v)) => { evv["flat"] = v; evv["flat_status"] = json!("ok"); evv["flat_msg"] = json!(""); }
+                        Ok(Err(m)) => { evv["flat"] = none; evv["flat_status"] = json!("unreadable"); evv["flat_msg"] = json!(format!("{m} || {text}")); }
+                        Err(p) => { evv["flat"] = none; evv["flat_status"] = json!("unreadable"); evv["flat_msg"] = json!(format!("{} at {} || {text}", p.msg, p.site)); }
+                    }
+                }
+                Err(p) => { evv["flat"] = none; evv["flat_status"] = json!("panic"); evv["flat_msg"] = json!(format!("{} at {}", p.msg, p.site)); }
+            }
+            let mut o = so.lock();
+            writeln!(o, "{evv}").unwrap();
+            o.flush().unwrap();
+        }
+    }
+
+    /// parent side: run the children of one history until every pair has an event (a pair whose child had to be
+    /// killed gets the status "hang")
+    fn flat_events(args: &[String], uni: &Universe, b: &Built, pairs: &[(usize, usize)], si: usize, variant: usize, plain: bool, out: &mut impl Write, nhang: &mut usize, nflat: &mut usize) {
+        use std::io::BufRead;
+        use std::sync::mpsc;
+        let limit = std::time::Duration::from_millis(if plain { env_u64("VERIF_FLAT_LIMIT_MS", 5000) } else { 1500 });
+        let max_restarts = if plain { 4 } else { 1 };
+        let mut first = 0usize;
+        let mut restarts = 0;
+        while first < pairs.len() && restarts < max_restarts {
+            let mut child = std::process::Command::new(std::env::current_exe().unwrap())
+                .args([&args[1], &args[2], "-", &args[4], "flat-child", &si.to_string(), &variant.to_string(), &first.to_string()])
+                .env("VERIF_WATCHDOG", "100000")
+                .stdout(std::process::Stdio::piped()).stderr(std::process::Stdio::null()).spawn().unwrap();
+            let so = child.stdout.take().unwrap();
+            let (tx, rx) = mpsc::channel::<Option<String>>();
+            std::thread::spawn(move || {
+                for l in std::io::BufReader::new(so).lines() { if tx.send(l.ok()).is_err() { return; } }
+                let _ = tx.send(None);
+            });
+            let mut begun: Option<usize> = None;
+            let mut hung = false;
+            loop {
+                match rx.recv_timeout(limit) {
+                    Ok(Some(l)) => {
+                        tick("flat child output");
+                        if let Some(n) = l.strip_prefix("B ") { begun = n.trim().parse().ok(); }
+                        else if l.starts_with('{') {
+                            let mut v: Value = serde_json::from_str(&l).unwrap();
+                            v["plain"] = json!(plain);
+                            writeln!(out, "{v}").unwrap(); *nflat += 1; begun = None;
+                        }
+                    }
+                    Ok(None) | Err(mpsc::RecvTimeoutError::Disconnected) => break,
+                    Err(mpsc::RecvTimeoutError::Timeout) => { hung = true; break; }
+                }
+            }
+            let _ = child.kill();
+            let _ = child.wait();
+            if !hung { break; }
+            restarts += 1;
+            match begun {
+                Some(pi) => {
+                    let (i, j) = pairs[pi];
+                    *nhang += 1;
+                    let evv = json!({"ev":"flat","universe":uni.name,"key":b.key,"naming":b.kind,"variant":variant,"asserted":b.asserted,
+                                     "query":{"l":uni.terms[i],"r":uni.terms[j]},"panic":false,"root":0,"dag":[],"msg":"","site":"",
+                                     "plain":plain,"flat":{"start":uni.terms[i],"steps":[]},"flat_status":"hang","flat_msg":"to_flat_string did not return within the limit"});
+                    writeln!(out, "{evv}").unwrap();
+                    first = pi + 1;
+                }
+                None => break,       // the child hung while building the history or in explain_equivalence: the parent reports that itself
+            }
+        }
+    }
+
     pub fn main() {
         let args: Vec<String> = std::env::args().collect();
         let uni: Universe = serde_json::from_str(&std::fs::read_to_string(&args[1]).unwrap()).unwrap();
         let table: Table = serde_json::from_str(&std::fs::read_to_string(&args[2]).unwrap()).unwrap();
-        let mut out = std::io::BufWriter::new(std::fs::File::create(&args[3]).unwrap());
         let maxpairs: usize = args[4].parse().unwrap();
         let seed = env_u64("VERIF_SEED", 0) as usize;
         install_hook();
         start_watchdog(env_u64("VERIF_WATCHDOG", 90));
+        if args.len() > 5 && args[5] == "flat-child" {
+            flat_child(&uni, &table, maxpairs, seed, &args);
+            return;
+        }
+        let flat_on = env_u64("VERIF_FLAT", 1) == 1;
+        let plain_states: Vec<usize> = std::env::var("VERIF_FLAT_PLAIN").ok().and_then(|s| serde_json::from_str(&s).ok()).unwrap_or_default();
+        let mut out = std::io::BufWriter::new(std::fs::File::create(&args[3]).unwrap());
         let (mut nproofs, mut npanics, mut nbuild_panics, mut nstates) = (0usize, 0usize, 0usize, 0usize);
+        let (mut nflat, mut nflat_hangs) = (0usize, 0usize);
         for (si, st) in table.states.iter().enumerate() {
             if st.key.is_empty() { continue; }
             nstates += 1;
             for variant in 0..2usize {
                 tick(&format!("{} state {:?} variant {}", uni.name, st.key, variant));
-                let kind = NAMINGS[(si + variant + seed) % NAMINGS.len()];
-                let nm = Naming::new(kind, uni.n);
-                let ex = |ti: usize| to_recexpr::<T>(&uni.terms[ti - 1], &nm).unwrap();
-                let mut key = st.key.clone();
-                if variant == 1 { key.reverse(); }
-                let mut asserted: Vec<Value> = Vec::new();
-                let built = guard(|| {
-                    let mut eg: EGraph<T> = EGraph::default();
-                    let mut asserted = Vec::new();
-                    // the universe's base terms (parents, other spellings of congruent nodes) are there from the start
-                    let mut base = uni.base.clone();
-                    if variant == 1 { base.reverse(); }
-                    for t in base { eg.add_syn_expr(ex(t)); }
-                    for (k, e) in key.iter().enumerate() {
-                        let (mut a, mut b) = uni.eqs[*e - 1];
-                        if (variant + k) % 2 == 1 { std::mem::swap(&mut a, &mut b); }
-                        let ia = eg.add_syn_expr(ex(a));
-                        let ib = eg.add_syn_expr(ex(b));
-                        eg.union_justified(&ia, &ib, Some(format!("eq{e}")));
-                        asserted.push(json!({"a": uni.terms[a - 1], "b": uni.terms[b - 1], "j": format!("eq{e}")}));
-                    }
-                    (eg, asserted)
-                });
-                let mut eg = match built {
-                    Ok((eg, a)) => { asserted = a; eg }
-                    Err(p) => {
+                let mut b = match build(&uni, st, si, variant, seed) {
+                    Ok(b) => b,
+                    Err(BuildErr::Explain(p)) => {
                         nbuild_panics += 1;
                         // a panic inside the explanation machinery while the history is built (a proof of a congruence or of
                         // a symmetry could not be constructed) is a failure of C07's subject; other panics belong to C08
-                        if p.site.contains("src/explain/") {
-                            println!("{}", json!({"kind":"finding","prop":"C07","what":"building the history panics inside the explanation machinery","site":p.site,
-                                "universe":uni.name,"detail":{"msg":p.msg,"key":st.key,"naming":kind,"variant":variant}}));
-                        }
+                        println!("{}", json!({"kind":"finding","prop":"C07","what":"building the history panics inside the explanation machinery","site":p.site,
+                            "universe":uni.name,"detail":{"msg":p.msg,"key":st.key,"naming":NAMINGS[(si + variant + seed) % NAMINGS.len()],"variant":variant}}));
                         continue;
                     }
+                    Err(BuildErr::Other) => { nbuild_panics += 1; continue; }
                 };
-                // rule applications: rewrite rules whose applier logs every instantiated pair and
-                // asserts it with the rule's name as justification (= union_instantiations)
-                if variant == 1 {
-                    let rules: Vec<(&str, String, String)> = vec![
-                        ("hcomm", "(h ?a ?b)".into(), "(h ?b ?a)".into()),
-                        ("gg", "(g (g ?a))".into(), "?a".into()),
-                        ("hidem", "(h ?a ?a)".into(), "?a".into()),
-                        ("lamh", format!("(lam {} (h ?a (v {})))", nm.slot(1), nm.slot(1)), format!("(lam {} (h (v {}) ?a))", nm.slot(1), nm.slot(1))),
-                        ("fswap", format!("(f {} {})", nm.slot(1), nm.slot(2)), format!("(f {} {})", nm.slot(2), nm.slot(1))),
-                    ];
-                    let pick = (si + seed) % rules.len();
-                    let r2 = guard(|| {
-                        let mut logged = Vec::new();
-                        for round in 0..2 {
-                            let (name, l, r) = &rules[(pick + round) % rules.len()];
-                            let (lp, rp) = (Pattern::<T>::parse(l).unwrap(), Pattern::<T>::parse(r).unwrap());
-                            for sb in ematch_all(&eg, &lp) {
-                                let la = pattern_subst(&mut eg, &lp, &sb);
-                                let lb = pattern_subst(&mut eg, &rp, &sb);
-                                let mut bn = BackNamer::new(&nm, 100);
-                                let (ta, tb) = (bn.term(&eg.get_syn_expr(&la)), bn.term(&eg.get_syn_expr(&lb)));
-                                eg.union_justified(&la, &lb, Some(name.to_string()));
-                                logged.push(json!({"a": ta, "b": tb, "j": name}));
-                                if logged.len() > 40 { break; }
-                            }
-                        }
-                        logged
-                    });
-                    match r2 {
-                        Ok(l) => asserted.extend(l),
-                        Err(_) => { nbuild_panics += 1; continue; }
-                    }
-                }
-                // candidate pairs: pool terms the implementation considers equal
-                let mut pairs = Vec::new();
-                let found: Vec<Option<AppliedId>> = uni.terms.iter().enumerate().map(|(i, _)| lookup_rec_expr(&ex(i + 1), &eg)).collect();
-                for i in 0..uni.terms.len() {
-                    for j in 0..uni.terms.len() {
-                        if i == j { continue; }
-                        if let (Some(a), Some(b)) = (&found[i], &found[j]) {
-                            if guard(|| eg.eq(a, b)).unwrap_or(false) { pairs.push((i, j)); }
-                        }
-                    }
-                }
-                let step = (pairs.len() / maxpairs.max(1)).max(1);
-                for (pi, (i, j)) in pairs.iter().enumerate() {
-                    if (pi + si + seed) % step != 0 { continue; }
-                    let (ti, tj) = (ex(i + 1), ex(j + 1));
+                let pairs = select_pairs(&uni, &b, si, seed, maxpairs);
+                for (i, j) in pairs.iter() {
+                    let (ti, tj) = { let ex = |ti: usize| to_recexpr::<T>(&uni.terms[ti - 1], &b.nm).unwrap(); (ex(i + 1), ex(j + 1)) };
                     let r = guard(|| {
-                        let peq = eg.explain_equivalence(ti.clone(), tj.clone());
-                        let mut bn = BackNamer::new(&nm, 100);
+                        let peq = b.eg.explain_equivalence(ti.clone(), tj.clone());
+                        let mut bn = BackNamer::new(&b.nm, 100);
                         let mut dag = Vec::new();
-                        let root = ser(&peq, &eg, &mut bn, &mut HashMap::new(), &mut dag);
+                        let root = ser(&peq, &b.eg, &mut bn, &mut HashMap::new(), &mut dag);
                         (root, dag)
                     });
                     nproofs += 1;
-                    let base = json!({"ev":"proof","universe":uni.name,"key":key,"naming":kind,"asserted":asserted,
-                                      "query":{"l":uni.terms[*i],"r":uni.terms[*j]}});
-                    let mut evv = base;
+                    let mut evv = json!({"ev":"proof","universe":uni.name,"key":b.key,"naming":b.kind,"variant":variant,"asserted":b.asserted,
+                                      "query":{"l":uni.terms[*i],"r":uni.terms[*j]},
+                                      "plain":false,"flat":{"start":uni.terms[*i],"steps":[]},"flat_status":"none","flat_msg":""});
                     match r {
                         Ok((root, dag)) => { evv["panic"] = json!(false); evv["root"] = json!(root); evv["dag"] = json!(dag); evv["msg"] = json!(""); evv["site"] = json!(""); }
                         Err(p) => { npanics += 1; evv["panic"] = json!(true); evv["root"] = json!(0); evv["dag"] = json!([]); evv["msg"] = json!(p.msg); evv["site"] = json!(p.site); }
                     }
                     writeln!(out, "{evv}").unwrap();
                 }
+                // the second rendering of the proofs of this history: flat explanations, produced in a child process
+                // (every history of a state the specification calls plain - no redundant slot, no symmetry -, a sample of the others)
+                let plain = plain_states.contains(&si);
+                if flat_on && !pairs.is_empty() && (plain || (si + seed) % 24 == 0) {
+                    flat_events(&args, &uni, &b, &pairs, si, variant, plain, &mut out, &mut nflat_hangs, &mut nflat);
+                }
             }
         }
-        println!("{}", json!({"kind":"summary","universe":uni.name,"states":nstates,"proofs":nproofs,"explain_panics":npanics,"histories_aborted_by_build_panics":nbuild_panics}));
+        out.flush().unwrap();
+        println!("{}", json!({"kind":"summary","universe":uni.name,"states":nstates,"proofs":nproofs,"explain_panics":npanics,
+                              "flat":nflat,"flat_hangs":nflat_hangs,"histories_aborted_by_build_panics":nbuild_panics}));
     }
 }
